@@ -98,6 +98,10 @@ def check_views(L, w, acc_shape=None, fill='garbage', seed=0, weight=1.0):
     sc = max(np.max(np.abs(expect)), 1e-300)
     out['insert_same_object'] = ret is acc
     out['insert_ok'] = rel_err(acc, expect, sc) <= 1e-12
+    # ... and the wavefront is what it was: a second accumulation (another weight, a clean buffer) and the views after it
+    acc2 = np.zeros(shape)
+    w.insert(acc2, 0.5)
+    out['second_insert_ok'] = rel_err(acc2, 0.5 * np.abs(total) ** 2, scale ** 2) <= 1e-12 and rel_err(w.intensity, np.abs(total) ** 2, scale ** 2) <= 1e-12
     out['insert_detail'] = 'max |got - (before + w*intensity)| / scale = %.3g (acc %s, wavefront %s, weight %r)' % (
         rel_err(acc, expect, sc), acc_shape, shape, weight)
     clipped = []
@@ -403,18 +407,51 @@ def check_same_fields(L, wa, wb):
     return out
 
 
-def h_refit(L, plane, add_opd):
-    """History carrier, one atomic step for the minimiser: fit in place, update the OPD, fit in place again."""
+def h_refit(L, plane, add_opd, how='setter'):
+    """History carrier, one atomic step for the minimiser: fit in place, update the OPD, fit in place again.  The update goes
+    through the documented attribute (how='setter') or is written into the array the plane holds (how='inplace')."""
     plane.fit_tilt(inplace=True)
-    plane.opd = plane.opd + np.asarray(add_opd)
+    if how == 'inplace' and isinstance(plane.opd, np.ndarray) and plane.opd.flags.writeable and plane.opd.dtype.kind == 'f':
+        np.add(plane.opd, np.asarray(add_opd), out=plane.opd)
+    else:
+        plane.opd = plane.opd + np.asarray(add_opd)
     plane.fit_tilt(inplace=True)
     return plane
 
 
+def check_refit(L, plane, add_opd, how='inplace'):
+    """One atomic step: fit in place, the owner adds tilt to the OPD (through the attribute, or by writing into the array the plane
+    holds), fit in place again -- and the second fit is judged like any fit: it removes exactly the least-squares tilt now present."""
+    plane.fit_tilt(inplace=True)
+    if how == 'inplace' and isinstance(plane.opd, np.ndarray) and plane.opd.flags.writeable and plane.opd.dtype.kind == 'f':
+        np.add(plane.opd, np.asarray(add_opd), out=plane.opd)
+    else:
+        plane.opd = plane.opd + np.asarray(add_opd)
+    before = plane.copy()
+    plane.fit_tilt(inplace=True)
+    out = check_fit(L, before, plane)
+    out['how'] = how
+    return out
+
+
+def check_tilt_kept(L, q, r):
+    """rescale / resample / copy change a plane's sampling, not the angles it has on record: r carries the tilt q carried."""
+    out = {'premise': len(q.tilt) > 0}
+    ta = [tilt_args(t) for t in q.tilt]
+    tb = [tilt_args(t) for t in r.tilt]
+    scale = max([abs(v) for t in ta for v in t] + [1e-300])
+    out['ok'] = len(ta) == len(tb) and all(abs(a[0] - b[0]) <= 1e-12 * scale and abs(a[1] - b[1]) <= 1e-12 * scale for a, b in zip(ta, tb))
+    out['detail'] = 'recorded (x, y) angles before %s, after %s' % (ta[:3], tb[:3])
+    return out
+
+
 HELPERS = {
     'h.refit': h_refit,
+    'h.refill': lambda L, buf, new: buf.__setitem__(Ellipsis, np.asarray(new, dtype=buf.dtype)),
     'h.reversed_fields': h_reversed_fields,
     'check.same_fields': check_same_fields,
+    'check.tilt_kept': check_tilt_kept,
+    'check.refit': check_refit,
     'h.add_ramp': h_add_ramp,
     'h.layout': h_layout,
     'h.dispersive_ramp': h_dispersive_ramp,
@@ -541,6 +578,8 @@ class ViewsHooks(Hooks):
                 it.probe('px_conflict')
                 if tag.get('bad_kind') in ('Tilt', 'DispersiveTilt'):
                     it.probe('px_conflict_tilt_plane')
+                if tag.get('bad_kind') == 'sampled-scalar-wavefront':
+                    it.probe('px_conflict_scalar_wavefront')
                 if out.ok:
                     it.violate('C07.px', {'what': 'not-refused'}, 'a plane with pixel scale %r was applied to a wavefront with pixel scale %r'
                                % (p.pixelscale, None if w.pixelscale is None else tuple(w.pixelscale)), i)
@@ -593,6 +632,9 @@ class ViewsHooks(Hooks):
                     it.violate('C07.views', {'what': 'second-reading-differs-after-caller-write'},
                                'field / intensity read a second time, after the caller wrote into the arrays the first reading returned, differ from the first reading', i)
             it.probe('check:insert')
+            if v.get('second_insert_ok') is False:
+                it.violate('C07.insert', {'what': 'second-accumulation-differs'},
+                           'after insert(out, weight) a second insert into a clean buffer (or the intensity view) no longer shows the wavefront', i)
             if not v['insert_ok'] or not v['insert_same_object']:
                 it.violate('C07.insert', {'what': 'accumulate' if v['insert_same_object'] else 'returns-other-array',
                                           'weighted': tag.get('weight', 1) != 1, 'same_shape': tag.get('same_shape', False)}, v['insert_detail'], i)
@@ -615,6 +657,8 @@ class ViewsHooks(Hooks):
                 it.probe('slit_plane')
             if tag.get('rescaled'):
                 it.probe('rescaled_plane')
+            if tag.get('mask_refilled'):
+                it.probe('mask_buffer_refilled')
             if not out.value['ok']:
                 it.violate('C07.phasor', {'what': 'pointwise-phasor', 'nplanes': min(tag.get('nplanes', 1), 3)}, out.value['detail'], i)
         elif fn == 'check.phasor' and not out.ok:
@@ -657,7 +701,7 @@ class ViewsScenario(OpticsBase):
     must_hit = ['three_fields_overlap', 'clip:lo0', 'clip:hi0', 'clip:lo1', 'clip:hi1', 'clip:outside', 'scalar_plane',
                 'two_segmented_planes', 'px_conflict', 'default_plane', 'nfields:1', 'nfields:3+', 'disjoint_pair_bridged',
                 'phasor_after_caller_write', 'phasor_after_attribute_update', 'slit_plane', 'plane_reused_at_another_sampling',
-                'views_reread_after_caller_write', 'rescaled_plane', 'px_conflict_tilt_plane']
+                'views_reread_after_caller_write', 'rescaled_plane', 'px_conflict_tilt_plane', 'px_conflict_scalar_wavefront', 'mask_buffer_refilled']
     probe_names = must_hit + ['coldwarm_audit', 'attributes:scalar-amplitude', 'attributes:no-opd', 'attributes:mask-only', 'attributes:typed-mask',
                               'attributes:layouts']
 
@@ -748,11 +792,22 @@ class ViewsScenario(OpticsBase):
                             kw[name] = '@' + b.E('h.layout', [kw[name], rng.choice(['F', 'T', 'strided', 'crop'])], tag='l')
                 if combo != 'all':
                     flags['combo'] = combo
-                p = b.E('Pupil', None, kw, tag='p')
+                cls_ = 'Pupil'
+                if j > 0 and rng.random() < 0.25:
+                    # the same optics as a generic plane of pupil type (no focal length to hand over) or a lenslet array (a Plane)
+                    cls_ = rng.choice(['Plane', 'Plane', 'LensletArray'])
+                    kw.pop('focal_length', None)
+                    kw['ptype'] = 'pupil'            # (both are none-typed by default, which a pupil wavefront must refuse)
+                    flags['generic_plane'] = True
+                if 'amplitude' in kw and rng.random() < 0.15:
+                    kw['amp'] = kw.pop('amplitude')         # the documented alias spelling
+                if rng.random() < 0.1:
+                    kw['diameter'] = rng.choice([1.0, 0.25])
+                p = b.E(cls_, None, kw, tag='p')
                 opd_ref = kw['opd'] if isinstance(kw.get('opd'), str) else None
                 if rng.random() < 0.5 and opd_ref is not None and isinstance(kw.get('amplitude'), str):
                     opd_ref = kw['amplitude']           # the caller's in-place write goes to the amplitude array instead
-                amp_plane = (p, sname) if 'mask' not in kw or rng.random() < 0.5 else None
+                amp_plane = (p, sname) if ('mask' not in kw or rng.random() < 0.5) and cls_ == 'Pupil' else None
                 if k > 1:
                     flags['nseg'] += 1
                 if j == 0 and not spread and combo == 'all' and (rng.random() < 0.15 or force.get('rescaled')):
@@ -787,6 +842,13 @@ class ViewsScenario(OpticsBase):
                 w = mul(amp_plane[0], w_before, attribute_update=True)
                 b.E('check.phasor', ['@' + w, ['@' + x for x in planes], ph['wl']],
                     t={'nplanes': len(planes), 'attribute_update': True}, tag='c')
+            if isinstance(kw.get('mask'), str) and cls_ == 'Pupil' and combo == 'all' and k == 1 and (rng.random() < 0.15 or force.get('caller_write')):
+                # the caller refills its mask buffer in place to build the next plane: the plane already built keeps the mask it was given
+                m_new = b.A({'kind': rng.choice(['disk', 'rect']), 'shape': sname, 'radius': min(world['shapes'][sname]) / 2.0 - 1.0,
+                             'half': [1, 1], 'dr': rng.choice([0, 1]), 'dc': rng.choice([-1, 0])}, 'm')
+                b.E('h.refill', [kw['mask'], '@' + m_new], tag='s')
+                w_m = mul(p, w_before, caller_write=True, mask_refilled=True)
+                b.E('check.phasor', ['@' + w_m, ['@' + x for x in planes], ph['wl']], t={'nplanes': len(planes), 'mask_refilled': True}, tag='c')
             if opd_ref is not None and (rng.random() < 0.25 or force.get('caller_write')):
                 # the caller edits its own OPD array in place (the plane holds a view of it) and sends the wavefront through again
                 pe = {'env': 'perturb', 'target': opd_ref, 'seed': b.sd()}
@@ -831,6 +893,18 @@ class ViewsScenario(OpticsBase):
                 b.E(rng.choice(['Plane.multiply', 'w*p', 'p*w']), ['@' + bad, '@' + w], t={'expect': 'refuse', 'bad_kind': kind_}, tag='x')
                 if b.events[-1]['fn'] == 'w*p':
                     b.events[-1]['a'] = b.events[-1]['a'][::-1]
+        if rng.random() < 0.15 or force.get('default'):
+            # a wavefront that is sampled although all its fields are still scalars (constructor argument, or a scalar plane that carries
+            # a pixel scale) meets a plane sampled differently: refused like any other conflict
+            if rng.random() < 0.5:
+                ws_ = b.E('Wavefront', [ph['wl']], {'pixelscale': rng.choice([ph['dx'], [ph['dx'], ph['dx'] * 1.25]])}, tag='w')
+            else:
+                w0_ = b.E('Wavefront', [ph['wl']], tag='w')
+                sp_ = b.E('Plane', None, {'amplitude': 0.5, 'pixelscale': ph['dx']}, tag='p')
+                ws_ = mul(sp_, w0_)
+            badp = b.E('Pupil', None, {'amplitude': '@' + b.A({'kind': 'uniform', 'shape': 'S', 'lo': 0.4, 'hi': 1.0, 'seed': b.sd()}),
+                                       'pixelscale': ph['dx'] * rng.choice([0.5, 1.25, 1 - 2e-3]), 'focal_length': ph['f']}, tag='p')
+            b.E('Plane.multiply', ['@' + badp, '@' + ws_], t={'expect': 'refuse', 'bad_kind': 'sampled-scalar-wavefront'}, tag='x')
         # ---- propagation, image plane, propagation back
         if rng.random() < 0.8 or force.get('propagate'):
             os_ = rng.choice([1, 2, 3])
@@ -951,7 +1025,7 @@ class TiltHooks(Hooks):
         v = out.value
         if not v.get('premise'):
             it.probe('premise_failed:' + fn)
-            if fn == 'check.fit' and v.get('recorded') is False:
+            if fn in ('check.fit', 'check.refit') and v.get('recorded') is False:
                 it.violate('C04.fit', {'what': 'angles-not-recorded'}, 'fit_tilt did not record one tilt per segment', i)
             return
         carrier = tag.get('carrier', '?')
@@ -975,7 +1049,7 @@ class TiltHooks(Hooks):
                            v['detail'], i)
             if not v['zero_outside']:
                 it.violate('C04.equiv', {'carrier': carrier, 'what': 'nonzero-outside-windows'}, 'field is non-zero outside every evaluated window', i)
-        elif fn == 'check.fit':
+        elif fn in ('check.fit', 'check.refit'):
             it.probe('check:fit')
             if tag.get('history'):
                 it.probe('fit:' + tag['history'])
@@ -995,6 +1069,10 @@ class TiltHooks(Hooks):
             it.probe('check:window')
             if not v['ok']:
                 it.violate('C04.shift', {'what': 'window-placement', 'square_pixels': tag.get('square', True)}, v['detail'], i)
+        elif fn == 'check.tilt_kept':
+            it.probe('check:tilt_kept')
+            if not v['ok']:
+                it.violate('C04.fit', {'what': 'recorded-angles-changed-by-rescale'}, v['detail'], i)
         elif fn == 'check.same_fields':
             it.probe('check:field_order')
             it.fault('reorder')
@@ -1037,7 +1115,7 @@ class TiltScenario(OpticsBase):
                 'carrier:wavefront-tilt', 'carrier:fit', 'carrier:refit', 'carrier:dispersive', 'carrier:wavefront-tilt+fit',
                 'carrier:tilt-planes-before-pupil', 'carrier:fan-out', 'carrier:same-wavefront-resampled', 'carrier:same-tilt-twice',
                 'trace_order:1/1', 'carrier:fit-inplace', 'noncontiguous_opd', 'carrier:dispersive-high-order', 'trace_negative_arc',
-                'trace_negative_arc_high_order', 'dispersive_blue', 'dispersive_red', 'pupil_per_axis_pixels', 'output_mask', 'fit:fit-rescale-refit', 'segment_off_detector', 'trace_after_update']
+                'trace_negative_arc_high_order', 'dispersive_blue', 'dispersive_red', 'pupil_per_axis_pixels', 'output_mask', 'fit:fit-rescale-refit', 'segment_off_detector', 'trace_after_update', 'fit:fit-update-refit']
     probe_names = must_hit + ['coldwarm_audit', 'no_common_samples', 'trace_order:2/1', 'trace_order:1/2', 'trace_order:2/2', 'trace_order:3/1']
 
     def program(self, rng, world, force=None):
@@ -1236,7 +1314,10 @@ class TiltScenario(OpticsBase):
         if rng.random() < 0.5 or force:
             oc = b.E('np.copy', ['@' + o_rs], tag='o') if rng.random() < 0.6 else b.E('h.layout', ['@' + o_rs, rng.choice(['F', 'T', 'strided', 'crop'])], tag='o')
             pr = b.E('Pupil', None, dict(pkw, opd='@' + oc, mask='@' + m), tag='p')
-            prr = b.E('h.refit', ['@' + pr, '@' + rg], tag='q')
+            prr = b.E('h.refit', ['@' + pr, '@' + rg, rng.choice(['setter', 'inplace'])], tag='q')
+            oc2 = b.E('np.copy', ['@' + o_rs], tag='o')
+            pr2 = b.E('Pupil', None, dict(pkw, opd='@' + oc2, mask='@' + m), tag='p')
+            b.E('check.refit', ['@' + pr2, '@' + rg, rng.choice(['setter', 'inplace', 'inplace'])], t={'segmented': k > 1, 'history': 'fit-update-refit'}, tag='c')
             wr_pre, ir = image(prr)
             b.E('check.equiv', ['@' + ir, '@' + ie, '@' + wr_pre, '@' + we_pre], t=dict(base_t, carrier='refit', refit=True), tag='c')
         # ---- history: fit, rescale the fitted plane, its OPD gains new tilt, fit again -- the second fit is a fresh least-squares
@@ -1251,6 +1332,7 @@ class TiltScenario(OpticsBase):
                 if not isinstance(dx, float):
                     b.events[-1]['fn'] = 'Plane.rescale'
                     b.events[-1]['a'][1] = 2.0
+            b.E('check.tilt_kept', ['@' + qh, '@' + rh], tag='c')
             rh0 = b.E('h.add_ramp', ['@' + rh, gx * rng.uniform(0.3, 1.5), gy * rng.uniform(0.3, 1.5)], tag='q')
             rh1 = b.E('Plane.copy', ['@' + rh0], tag='q')
             rh2 = b.E('Plane.fit_tilt', ['@' + rh0], {'inplace': rng.random() < 0.5}, tag='q')
